@@ -13,6 +13,7 @@ func runC20(c *Ctx, tier string) {
 	c.Rule("C20-W2", "buffered values are copies (= C04-W2 for Fuser.Write)")
 	c.Rule("C20-O1", "spilling keeps input order: stash writes the already buffered values (in slice order) to the spill file before the current one, and nothing is buffered in memory once a spill file exists")
 	c.Rule("C20-R1", "the second pass shapes every value to the fused type with Cast|Fill|Order, the type being uberSchema.Type()")
+	runMergeSetOnlyFromSets(c, "C20-M2")
 	wr := p.Func("(*runtime/sam/op/fuse.Fuser).Write")
 	st := p.Func("(*runtime/sam/op/fuse.Fuser).stash")
 	rd := p.Func("(*runtime/sam/op/fuse.Fuser).Read")
